@@ -136,7 +136,7 @@ CHECKS = {
                 "ControllerRevisions crossing owner x labels (selector / upgrade marker / both / none) x equal-or-different data, an optional second "
                 "set with an overlapping selector (replicas 0-3) that the same controller reconciles at up to 4 drawn points of the history - every write of those "
                 "reconciles must be on its own status, on pods named <second>-<ordinal> that it controls or may adopt, or on revisions no other owner controls -, and histories in which the cached set goes stale (set deleted, re-created with a new UID, deletion "
-                "timestamp set in the API only; a re-created set may select differently, and an eighth of the histories re-use the name twice at generation 1). Oracle per reconcile: adopt patches only on adoptable pods and only after an uncached GET that "
+                "timestamp set in the API only; a re-created set may select differently, and an eighth of the histories re-use the name twice at generation 1); in a quarter of the cases a set with the SAME name lives in a second namespace with pods of the same names and is reconciled at drawn points - no call of any reconcile may leave its set's namespace. Oracle per reconcile: adopt patches only on adoptable pods and only after an uncached GET that "
                 "confirmed UID and no deletion timestamp; release patches only on owned pods that stopped matching and removing exactly the own "
                 "reference; no write at all on a pod or ControllerRevision controlled by another owner; no delete of a non-member; status.replicas "
                 "counts member pods only; the set is written only through status; objects obtained from caches are unmodified afterwards. "
